@@ -15,7 +15,10 @@ use crate::response::{Response, StatusCode};
 use crate::server::MAX_PAYLOAD_SIZE;
 use vmm_sys_util::sock_ctrl_msg::ScmSocket;
 
+#[cfg(not(micro_http_verif_small))]
 const BUFFER_SIZE: usize = 1024;
+#[cfg(micro_http_verif_small)]
+const BUFFER_SIZE: usize = 32;
 const SCM_MAX_FD: usize = 253;
 
 /// Describes the state machine of an HTTP connection.
@@ -561,6 +564,41 @@ impl<T: Read + Write + ScmSocket> HttpConnection<T> {
     /// Returns `true` if there are bytes waiting to be written into the stream.
     pub fn pending_write(&self) -> bool {
         self.response_buffer.is_some() || !self.response_queue.is_empty()
+    }
+
+    /// Verification hook (read-only): a digest of the internal state, in the order
+    /// state, read_cursor, body_vec.len, body_bytes_to_be_read, pending_request.is_some,
+    /// parsed_requests.len, response_queue.len, response_buffer.len (or u64::MAX), files.len.
+    #[cfg(micro_http_verif)]
+    pub fn verif_digest(&self) -> [u64; 9] {
+        [
+            match self.state {
+                ConnectionState::WaitingForRequestLine => 0,
+                ConnectionState::WaitingForHeaders => 1,
+                ConnectionState::WaitingForBody => 2,
+                ConnectionState::RequestReady => 3,
+            },
+            self.read_cursor as u64,
+            self.body_vec.len() as u64,
+            self.body_bytes_to_be_read as u64,
+            self.pending_request.is_some() as u64,
+            self.parsed_requests.len() as u64,
+            self.response_queue.len() as u64,
+            self.response_buffer.as_ref().map_or(u64::MAX, |b| b.len() as u64),
+            self.files.len() as u64,
+        ]
+    }
+
+    /// Verification hook (read-only): the valid prefix of the receive buffer.
+    #[cfg(micro_http_verif)]
+    pub fn verif_window(&self) -> &[u8] {
+        &self.buffer[..self.read_cursor.min(BUFFER_SIZE)]
+    }
+
+    /// Verification hook (read-only): the size of the receive buffer of this build.
+    #[cfg(micro_http_verif)]
+    pub fn verif_buffer_size() -> usize {
+        BUFFER_SIZE
     }
 }
 
